@@ -1,6 +1,6 @@
 ---------------------------- MODULE MC_Routing ----------------------------
 (* Bounded instances of Routing.tla and the emission of replay cases.      *)
-EXTENDS Routing, Json
+EXTENDS Routing, Json, SequencesExt
 
 RECURSIVE SeqsUpTo(_, _)
 SeqsUpTo(Chars, n) == IF n = 0 THEN {<<>>}
@@ -28,8 +28,7 @@ CompsCache == [s \in Targets \cup NamePool |-> SplitAt(s, 1, <<>>, <<>>)]
 CompsFast(s) == CompsCache[s]
 
 \* a fixed enumeration order of the targets, shared with the harness through the META line
-RECURSIVE SetToSeq(_)
-SetToSeq(S) == IF S = {} THEN <<>> ELSE LET x == CHOOSE y \in S : TRUE IN <<x>> \o SetToSeq(S \ {x})
+\* SetToSeq comes from SequencesExt (implemented in Java: no deep recursion for the 364 targets of length <= 5)
 TargetSeq == SetToSeq(Targets)
 
 \* compact routing table: distinct [thr, apps] classes + one class index per target
